@@ -508,7 +508,8 @@ fn prepare(env: &mut VEnv, state: &Rc<RefCell<SystemState>>, prim: &Prim, d: &mu
             let mut cands: BTreeSet<String> = texts[i].iter().cloned().collect();
             if let Some(ns) = &listing {
                 d.list.insert(dir.clone(), ns.clone());
-                cands.extend(ns.iter().cloned());
+                // the code skips `.` and `..` of a listing before anything else: no descent through them
+                cands.extend(ns.iter().filter(|n| *n != "." && *n != "..").cloned());
                 for u in &names_all {
                     let path = format!("{p}{u}");
                     if sys_exists(env, &path) {
@@ -751,8 +752,8 @@ fn run_guarded(prim: &Prim) -> (String, String, String) {
 
 const NAMES: [&str; 12] = ["a", "b", "ab", ".a", ".b", "-", "[", "*", "a]", "sub", "?", "\\"];
 
-fn gen_dir(r: &mut Rng, prefix: &str, depth: usize, out: &mut Vec<Entry>) {
-    let n = if depth == 0 { 2 + r.below(5) } else { r.below(4) };
+fn gen_dir(r: &mut Rng, plain: bool, prefix: &str, depth: usize, out: &mut Vec<Entry>) {
+    let n = if depth == 0 { 3 + r.below(6) } else { r.below(5) };
     let mut used: Vec<&str> = vec![];
     for _ in 0..n {
         // the last two names are rarer
@@ -763,17 +764,21 @@ fn gen_dir(r: &mut Rng, prefix: &str, depth: usize, out: &mut Vec<Entry>) {
         used.push(name);
         let path = format!("{prefix}{name}");
         let roll = r.below(20);
-        let want_dir = name == "sub" || roll < 7;
+        let want_dir = (name == "sub" && roll < 16) || roll < 8;
         if want_dir && depth < 2 {
-            let mode = match r.below(12) {
-                0 => 0o644,
-                1 => 0o311,
-                2 => 0o000,
-                _ => 0o755,
+            let mode = if plain {
+                0o755
+            } else {
+                match r.below(10) {
+                    0 => 0o644,
+                    1 => 0o311,
+                    2 => 0o000,
+                    _ => 0o755,
+                }
             };
             out.push(Entry::Dir(path.clone(), mode));
-            gen_dir(r, &format!("{path}/"), depth + 1, out);
-        } else if roll >= 17 {
+            gen_dir(r, plain, &format!("{path}/"), depth + 1, out);
+        } else if roll >= 17 && !plain {
             let target = match r.below(8) {
                 0 => "a",
                 1 => "b",
@@ -791,12 +796,17 @@ fn gen_dir(r: &mut Rng, prefix: &str, depth: usize, out: &mut Vec<Entry>) {
     }
 }
 
+/// `plain` trees have no symbolic links and only searchable directories (so the oracles are
+/// consistent in the sense of the model's `WF`); the others have both.
 fn gen_tree(r: &mut Rng) -> Vec<Entry> {
     let mut out = vec![];
-    gen_dir(r, "", 0, &mut out);
+    let plain = r.chance(11, 20);
+    gen_dir(r, plain, "", 0, &mut out);
     out
 }
 
+/// atoms that are likely to match something
+const PRODUCTIVE: [&str; 16] = ["*", "*", "?", "??", "[ab]*", ".*", "*b", "a*", "[!a]*", "[a-b]", "*]", ".?", "[!.]*", "[[:alpha:]]*", "?*", "[*[]"];
 const ATOMS: [&str; 30] = [
     "a", "b", "ab", "*", "?", "[ab]", "[!a]", "[a-b]", "[a", "a]", "[", "]", ".", "..", ".*", "-", "sub", "*b", ".?", "[.]a",
     "[*]", "[?]", "!", "[[:alpha:]]", "[[:wrong:]]", "a*", "[.", "??", "[]-]", "[!.]*",
@@ -895,14 +905,28 @@ fn gen_word(r: &mut Rng) -> (String, Vec<(String, String)>) {
                 _ => g.text.push('/'),
             }
         }
-        let npieces = match r.below(6) {
-            0 | 1 | 2 => 1,
-            3 | 4 => 2,
-            _ => 3,
-        };
-        for _ in 0..npieces {
-            let text = if r.chance(1, 7) { *r.pick(&VAR_ATOMS) } else { *r.pick(&ATOMS) };
-            g.piece(r, text);
+        match r.below(10) {
+            0..=3 => {
+                // one productive wildcard, usually unquoted
+                let text = *r.pick(&PRODUCTIVE);
+                if r.chance(3, 4) { g.text.push_str(text) } else { g.piece(r, text) }
+            }
+            4 | 5 => {
+                // the name of something that may well be there
+                let text = *r.pick(&NAMES[..10]);
+                if r.chance(1, 2) && !text.contains(['*', '[', '?', '\\']) { g.text.push_str(text) } else { g.piece(r, text) }
+            }
+            _ => {
+                let npieces = match r.below(6) {
+                    0 | 1 | 2 => 1,
+                    3 | 4 => 2,
+                    _ => 3,
+                };
+                for _ in 0..npieces {
+                    let text = if r.chance(1, 7) { *r.pick(&VAR_ATOMS) } else { *r.pick(&ATOMS) };
+                    g.piece(r, text);
+                }
+            }
         }
     }
     if r.chance(1, 12) {
